@@ -101,13 +101,16 @@ def settleStep (r : StRes) (a b : SSnap) : StRes := Id.run do
       if p.executed && !d.executed then r := tfail r s!"dispute {d.id} lost its executed mark"
       if !p.executed && d.executed then
         r := { r with nExec := r.nExec + 1 }
-        if d.round == 1 then
+        if true then
           match outcomeOf d.result with
           | none => r := tfail r s!"dispute {d.id} executed with result {d.result}"
           | some o =>
             let anyVoter := (b.cs.filter (·.id == d.id)).any (fun c => c.users + c.reps + c.holders > 0) || (b.ts.any (·.id == d.id))
-            let m := execute p.slash p.burn anyVoter o
-            if p.burn != burnAmount p.slash then r := tdiff r s!"burn amount of dispute {d.id}: implementation {p.burn}, model {burnAmount p.slash}"
+            -- votes of every round of the dispute count
+            let anyVoter := anyVoter || (b.cs.filter (fun c => d.prev.contains c.id)).any (fun c => c.users + c.reps + c.holders > 0) || (b.ts.any (fun t => d.prev.contains t.id))
+            let roundFees := p.feeTotal - p.slash
+            let m := execute p.slash p.burn anyVoter o roundFees
+            if p.burn - roundFees != burnAmount p.slash then r := tdiff r s!"burn amount of dispute {d.id}: implementation {p.burn} with round fees {roundFees}, model {burnAmount p.slash}"
             if d.voterReward != m.voterReward then r := tdiff r s!"voter reward of dispute {d.id}: implementation {d.voterReward}, model {m.voterReward}"
             r := { r with burnedNow := r.burnedNow + m.burned, returnedNow := r.returnedNow + m.toReporter, execNow := r.execNow + 1 }
   -- burned at execution = supply drop of the block (no other burn in a block without tip/withdraw transactions); the dispute
@@ -127,37 +130,42 @@ def settleStep (r : StRes) (a b : SSnap) : StRes := Id.run do
       let id := ((x.get "id").toNat?).getD 0
       let payer := x.get "payer"
       let recBefore := a.fs.find? (fun f => f.id == id && f.payer == payer)
-      match a.ds.find? (·.id == id), recBefore with
+      -- the payer is recorded under the first round; the outcome and the amounts are those of the dispute's last round
+      let chain := a.ds.filter (fun d => d.prev.contains id)
+      let latest? := chain.foldl (fun (acc : Option DRec) d => match acc with | none => some d | some m => if d.id > m.id then some d else some m) none
+      match latest?, recBefore with
       | some d, some f =>
         if x.ok then
           r := { r with nRefund := r.nRefund + 1 }
           if b.fs.any (fun g => g.id == id && g.payer == payer) then r := tfail r s!"payer record of {payer} (dispute {id}) survives its refund"
-          let got := holdOf b payer - holdOf a payer + (if x.signer == payer then 0 else 0)
-          -- fees: the signer pays the transaction fee from its liquid balance
+          let got := holdOf b payer - holdOf a payer
           let txFee : Int := if x.signer == payer then liquidFee else 0
           if d.status == 4 then pure ()   -- failed (expired) dispute: see DESIGN.md
           else match outcomeOf d.result with
             | some .against => r := tfail r s!"fee refund paid for a dispute decided against ({id})"
             | some o =>
-              if d.round == 1 && d.prev.length ≤ 1 then
-                let pot := d.slash - d.burn
-                let m1 := (refund f.amount pot d.feeTotal).1
-                let m2 := if o == .support then (bondShare f.amount d.slash d.feeTotal).1 else 0
-                -- an account that already holds stake also receives its accrued staking rewards whenever its delegation
-                -- changes (distribution hook): for those only the staked part is compared exactly
-                let stakedBefore := ((a.hold.find? (·.1 == payer)).map (·.2.2)).getD 0
-                let stakeGot := (((b.hold.find? (·.1 == payer)).map (·.2.2)).getD 0) - stakedBefore
-                let liquidGot := liquidOf b payer - liquidOf a payer + txFee
-                let expStake := (if f.fromBond then m1 else 0) + m2
-                let expLiquid := (if f.fromBond then 0 else m1)
-                if stakedBefore > 0 then
-                  if stakeGot != expStake || liquidGot < expLiquid then r := tdiff r s!"refund of {payer} for dispute {id}: stake changed by {stakeGot} (model {expStake}), liquid by {liquidGot} (model at least {expLiquid})"
-                else if got + txFee != m1 + m2 then r := tdiff r s!"refund of {payer} for dispute {id}: holdings changed by {got + txFee}, model {m1} + {m2}"
-                -- pro rata: within two loya of fee/feeTotal of the pots
-                let exact2 := f.amount * (pot + (if o == .support then d.slash else 0))
-                let paid := if stakedBefore > 0 then stakeGot + expLiquid else got + txFee
-                let dev := paid * d.feeTotal - exact2
-                if dev > 0 || dev < -(2 * d.feeTotal) then r := tfail r s!"refund of {payer} for dispute {id} is {paid}, not the pro-rata part of its fee {f.amount} of {d.feeTotal}"
+              if !d.executed then r := tfail r s!"refund of dispute {id} paid before its last round ({d.id}) was executed"
+              -- fees of further rounds are burned / go to the voters; the first round's payers share slash − 5 %
+              let roundFees := d.feeTotal - d.slash
+              let firstFees := d.slash
+              let pot := d.slash - (d.burn - roundFees)
+              let m1 := (refund f.amount pot firstFees).1
+              let m2 := if o == .support then (bondShare f.amount d.slash firstFees).1 else 0
+              -- an account that already holds stake also receives its accrued staking rewards whenever its delegation
+              -- changes (distribution hook): for those only the staked part is compared exactly
+              let stakedBefore := ((a.hold.find? (·.1 == payer)).map (·.2.2)).getD 0
+              let stakeGot := (((b.hold.find? (·.1 == payer)).map (·.2.2)).getD 0) - stakedBefore
+              let liquidGot := liquidOf b payer - liquidOf a payer + txFee
+              let expStake := (if f.fromBond then m1 else 0) + m2
+              let expLiquid := (if f.fromBond then 0 else m1)
+              if stakedBefore > 0 then
+                if stakeGot != expStake || liquidGot < expLiquid then r := tdiff r s!"refund of {payer} for dispute {id}: stake changed by {stakeGot} (model {expStake}), liquid by {liquidGot} (model at least {expLiquid})"
+              else if got + txFee != m1 + m2 then r := tdiff r s!"refund of {payer} for dispute {id}: holdings changed by {got + txFee}, model {m1} + {m2}"
+              -- pro rata: within two loya of fee/firstFees of the pots
+              let exact2 := f.amount * (pot + (if o == .support then d.slash else 0))
+              let paid := if stakedBefore > 0 then stakeGot + expLiquid else got + txFee
+              let dev := paid * firstFees - exact2
+              if dev > 0 || dev < -(2 * firstFees) then r := tfail r s!"refund of {payer} for dispute {id} is {paid}, not the pro-rata part of its fee {f.amount} of {firstFees}"
             | none => r := tfail r s!"refund paid before the vote of dispute {id} was executed"
       | _, none => if x.ok then r := tfail r s!"refund paid to {payer} for dispute {id} without a payer record (second claim?)"
       | none, _ => if x.ok then r := tfail r s!"refund paid for unknown dispute {id}"
@@ -224,10 +232,17 @@ def runSettle (_inp : List String) (out : String) : Option Res :=
   -- after all parties have claimed: at most dust remains in escrow
   let r := match snaps.getLast? with
     | some last =>
-      let allDone := last.ds.all (fun d => d.executed || d.status == 4)
+      let allDone := last.ds.all (fun d => d.executed || d.status == 4 || !d.isOpen)
       let parties : Int := (last.fs.length + last.ts.length : Nat)
-      if allDone && !last.ds.isEmpty && last.ds.all (fun d => d.status != 4) && last.fs.all (fun f => last.ds.any (fun (d : DRec) => d.id == f.id && outcomeOf d.result == some Outcome.against)) &&
-         last.disputeBal > parties + 64 then tfail r s!"{last.disputeBal} loya remain in dispute escrow after all parties claimed ({last.fs.length} payer records left)"
+      let latestOf := fun (id : Nat) => (last.ds.filter (fun (d : DRec) => d.prev.contains id)).foldl (fun (acc : Option DRec) d => match acc with
+        | none => some d | some m => if d.id > m.id then some d else some m) none
+      -- a payer whose dispute ended (last round executed) with support or invalid must have been able to claim
+      let stuck : List FRec := last.fs.filter (fun (f : FRec) => match latestOf f.id with
+        | some d => d.executed && (outcomeOf d.result == some Outcome.support || outcomeOf d.result == some Outcome.invalid)
+        | none => false)
+      if !stuck.isEmpty then tfail r s!"payer {(stuck.map FRec.payer)} could not claim the refund of an executed dispute (records {(stuck.map FRec.id)} left)"
+      else if allDone && !last.ds.isEmpty && last.ds.all (fun d => d.status != 4) && last.disputeBal > parties + 64 then
+        tfail r s!"{last.disputeBal} loya remain in dispute escrow after all parties claimed ({last.fs.length} payer records left)"
       else r
     | none => r
   some { agree := r.ok && !sc.halted, monitor := r.mon, nontrivial := decide (r.nExec ≥ 1 ∧ r.nRefund + r.nReward ≥ 1),
